@@ -12,7 +12,7 @@ ENGINE_ONLY_AIDS = ("C14-source-modified",)
 VALIDATE_OUT_SHA = False
 BOUNDS = {
     "quick": {"source_shapes": "skinned and unskinned shapes with shader, texture set, skin instance/data/partition (OB/FO3/SK/SSE/FO4/FO76), NiTriStrips geometry (FO3, SK), a bone of a derived node type (BSValueNode)", "destination": "same model, fresh model of the same version, other built model", "repeat": "clone once and twice"},
-    "thorough": {"source_shapes": "as quick plus extra data / controller / symbolic vertex payload", "destination": "all three", "repeat": "once and twice"},
+    "thorough": {"source_shapes": "as quick plus extra data / controller / derived bone type", "destination": "all three", "repeat": "once and twice"},
 }
 ASSUMPTIONS = [
     "block content is compared on serialised bytes with every reference field replaced by a tag, recursively along the references (bones are matched by name, not cloned); the reference positions come from the OUSNIUS_NIFLY_VERIF hook",
@@ -30,7 +30,7 @@ MODELS_Q = [(SSE, SKIN | EXTRA), (SK, SKIN | BONETYPE | STRIPS), (FO4, SKIN | BO
 def jobs(tier, seed):
     J = []
     bud = 120 if tier == "quick" else 600
-    models = MODELS_Q if tier == "quick" else MODELS_Q + [(v, f) for v in range(6) for f in (SKIN | SYMPOS, EXTRA | CTRL, SKIN | COLL | SHAPE2)]
+    models = MODELS_Q if tier == "quick" else MODELS_Q + [(v, f) for v in range(6) for f in (SKIN | BONETYPE, EXTRA | CTRL, SKIN | COLL | SHAPE2)]
     for ver, feat in models:
         for dest in (0, 1, 2):
             for twice in (0, 1):
